@@ -26,7 +26,7 @@ let addr_id s =
 let () =
   let cases = read_lines Sys.argv.(1) in
   let impl = impl_table Sys.argv.(2) in
-  let n_tx = ref 0 and n_probe = ref 0 and n_edit = ref 0 and n_connlost = ref 0 and n_deferred = ref 0 in
+  let n_tx = ref 0 and n_probe = ref 0 and n_edit = ref 0 and n_connlost = ref 0 and n_deferred = ref 0 and n_early = ref 0 in
   List.iteri (fun k line ->
     let lines = impl_lines impl k in
     let fails = ref [] in
@@ -66,7 +66,16 @@ let () =
       let seen_ids = Hashtbl.create 16 in
       let retx = Hashtbl.create 16 in       (* ids transmitted more than once *)
       let pending_user = ref false in
+      (* requests other than send (search, gai, ...): their queries get their ids when they are
+         transmitted; they are recognised by the first label of the question name, h<T> for
+         token t<T> (generator convention), the first transmission of a (name, type) being the
+         user's query and a later id with the same question a probe copy (UDP only) *)
+      let tok_kind : (string, string) Hashtbl.t = Hashtbl.create 16 in
+      let tok_inner : (string, int * string) Hashtbl.t = Hashtbl.create 16 in   (* token -> last inner id, its name *)
+      let questions : (string, unit) Hashtbl.t = Hashtbl.create 16 in
+      let id_srv : (int, int) Hashtbl.t = Hashtbl.create 16 in                  (* id -> address of its last transmission *)
       let cur_op = ref "" in
+      let reent = ref 0 in
       let probes = ref 0 and edits = ref 0 and edits_inflight = ref 0 and sends = ref 0 and maxfail = ref 0 in
       let live = ref 0 in
       let due_check () =
@@ -125,6 +134,24 @@ let () =
                (Printf.sprintf "op [%s]: %s rejected; failures by callbacks [%s]" !cur_op descr
                   (String.concat "," (List.map (fun s -> Printf.sprintf "%d:%d:%s" (iz s.sv_addr) (iz s.sv_idx) (string_of_z s.sv_fail)) m.m_servers)));
              mon := None) in
+      (* The model's order is: the success of the answering server is recorded, THEN the query
+         completes (user callback / next candidate of a search).  Whatever is transmitted from
+         inside the completion is therefore judged against a table in which that server is
+         already restored: the success is applied when the completion is seen, even if the
+         library has not reported it yet (reporting it again afterwards changes nothing). *)
+      (* set while the monitor's table is ahead of what the library has reported: its counters are
+         compared again (accounting) once the report has arrived *)
+      let ahead = ref false in
+      let early_good a why =
+        match !mon with
+        | None -> ()
+        | Some m ->
+          (match find_addr (zi a) m.m_servers with
+           | Some sv when iz sv.sv_fail > 0 ->
+             incr n_early; ignore why; ahead := true;
+             (match mon_step m (OGood (zi a)) with Some m' -> mon := Some m'; refresh_pending () | None -> ())
+           | _ -> ()) in
+      let label_count name = List.length (List.filter (fun x -> x <> "") (split_on '.' name)) in
       List.iter (fun l ->
         let w = words l in
         match w with
@@ -152,6 +179,7 @@ let () =
            | ("run" | "proc" | "proct" | "procsel") :: _ -> Hashtbl.iter (fun _ (_, _, _, _, fl) -> fl := true) pend
            | _ -> ());
           cur_op := String.concat " " rest;
+          (match w, rest with "CBOP" :: _, "send" :: _ -> incr reent | _ -> ());
           (match rest with
            | ["setservers"; csv] ->
              incr edits; incr n_edit; if !live > 0 then incr edits_inflight;
@@ -167,13 +195,23 @@ let () =
                feed (OServers (List.map zi !last_written)) "reinit"
              end
            | _ -> ())
+        | "REQ" :: t :: api :: _ when api <> "send" ->
+          pending_user := true; incr sends; incr live; Hashtbl.replace tok_kind t api
         | "REQ" :: t :: _ ->
-          pending_user := true; incr sends; incr live;
+          pending_user := true; incr sends; incr live; Hashtbl.replace tok_kind t "send";
           (* query ids are handed out in order (idseq): this request gets the next one *)
           Hashtbl.replace tok_label t !next_id; Hashtbl.replace user_ids !next_id (); incr next_id
         | "RET" :: _ -> pending_user := false
         | "CB" :: t :: rest ->
           if !live > 0 then decr live;
+          (* a send request completes with status 0 only through an accepted answer of the server
+             its last transmission went to (the cache is off) *)
+          (match Hashtbl.find_opt tok_label t, field rest "status" with
+           | Some l, Some "0" when Hashtbl.find_opt tok_kind t = Some "send" ->
+             (match Hashtbl.find_opt id_srv l with
+              | Some a -> early_good a (Printf.sprintf "completion of %s" t)
+              | None -> ())
+           | _ -> ());
           (match Hashtbl.find_opt tok_label t, field rest "status" with
            | Some l, Some st -> feed (ODone (nat_of_int l, zi (int_of_string st))) (Printf.sprintf "query %s ended with status %s" t st)
            | _ -> ())
@@ -186,7 +224,29 @@ let () =
              if Hashtbl.mem seen_ids id then Hashtbl.replace retx id ();
              if not (Hashtbl.mem seen_ids id) then begin
                Hashtbl.replace seen_ids id ();
-               if not (Hashtbl.mem user_ids id) && id >= !next_id then next_id := id + 1   (* a probe copy took this id *)
+               (* first transmission of this id: a query of a search / getaddrinfo request? *)
+               (match field w "qname", field w "qtype" with
+                | Some qn, Some qt when not (Hashtbl.mem user_ids id) ->
+                  let first = match split_on '.' qn with x :: _ -> x | [] -> "" in
+                  let tok = if String.length first >= 2 && first.[0] = 'h' then "t" ^ String.sub first 1 (String.length first - 1) else "" in
+                  (match Hashtbl.find_opt tok_kind tok with
+                   | Some k when k <> "send" && not (Hashtbl.mem questions (qn ^ "/" ^ qt)) ->
+                     Hashtbl.replace user_ids id ();
+                     (* not the first candidate: the previous one was answered (NXDOMAIN / no data)
+                        by the server it was sent to - unless it was a single label, which also
+                        moves on after SERVFAIL / REFUSED *)
+                     (match Hashtbl.find_opt tok_inner tok with
+                      | Some (p, pname) when label_count pname <> 1 ->
+                        incr reent;
+                        (match Hashtbl.find_opt id_srv p with
+                         | Some a -> early_good a (Printf.sprintf "next candidate of %s" tok)
+                         | None -> ())
+                      | _ -> ());
+                     Hashtbl.replace tok_inner tok (id, qn)
+                   | _ -> ());
+                  Hashtbl.replace questions (qn ^ "/" ^ qt) ()
+                | _ -> ());
+               if id >= !next_id then next_id := id + 1   (* a probe copy or a query of a search took this id *)
              end;
              let probe = not (Hashtbl.mem user_ids id) in
              if probe then (incr probes; incr n_probe);
@@ -195,6 +255,7 @@ let () =
               | Some i ->
                 (match List.assoc_opt i !srvtab with
                  | Some a ->
+                   Hashtbl.replace id_srv id a;
                    let sk = match w with _ :: _ :: sk :: _ -> sk | _ -> "" in
                    let deferred_ok = match Hashtbl.find_opt pend sk with
                      | Some (_, oku, okp, first, _) when field w "proto" = Some "tcp" ->
@@ -207,7 +268,7 @@ let () =
         | "SERVERSTATE" :: a :: rest ->
           (match addr_id a, field rest "success" with
            | Some a, Some "0" -> feed (OFail (zi a)) (Printf.sprintf "failure of 10.0.0.%d" a)
-           | Some a, Some "1" -> feed (OGood (zi a)) (Printf.sprintf "success of 10.0.0.%d" a)
+           | Some a, Some "1" -> ahead := false; feed (OGood (zi a)) (Printf.sprintf "success of 10.0.0.%d" a)
            | _ -> ())
         | "QSTATE" :: rest when (match field rest "conns" with
                                  | Some c when String.length c >= 2 ->
@@ -220,7 +281,7 @@ let () =
                                  | _ -> false) -> ()
         | "QSTATE" :: rest ->
           (match field rest "srv", !mon with
-           | Some s, Some m when String.length s >= 2 ->
+           | Some s, Some m when String.length s >= 2 && not !ahead ->
              let body = String.sub s 1 (String.length s - 2) in
              let ent = if body = "" then [] else split_on ',' body in
              let got = List.sort compare (List.filter_map (fun e -> match split_on '/' e with
@@ -257,8 +318,8 @@ let () =
         else Printf.sprintf "%s-%s-f%s%s%s%s" (if rot then "rot" else "norot")
             (if nsrv <= 1 then "1srv" else if nsrv <= 3 then "2-3srv" else "4-8srv")
             (if !maxfail = 0 then "0" else if !maxfail <= 2 then "1-2" else "3+")
-            (if tcp then "-tcp" else "") (if !probes > 0 then "-probe" else "")
+            (if tcp then "-tcp" else if !reent > 0 then "-reentry" else "") (if !probes > 0 then "-probe" else "")
             (if !edits_inflight > 0 then "-editinflight" else if !edits > 0 then "-edit" else "") in
       Printf.printf "CASE %d %s\n" k cls;
       List.iter (fun (kind, s) -> Printf.printf "FAIL %d %s %s\n" k kind s) (List.rev !fails)) cases;
-  Printf.printf "STAT transmissions %d\nSTAT probes %d\nSTAT edits %d\nSTAT connections-lost %d\nSTAT deferred-tcp-writes %d\n" !n_tx !n_probe !n_edit !n_connlost !n_deferred
+  Printf.printf "STAT transmissions %d\nSTAT probes %d\nSTAT edits %d\nSTAT connections-lost %d\nSTAT deferred-tcp-writes %d\nSTAT successes-applied-at-completion %d\n" !n_tx !n_probe !n_edit !n_connlost !n_deferred !n_early
